@@ -200,6 +200,9 @@ func Run(c *hx.Ctx) {
 	h2Malformed(c)
 	// HPACK primitives through the real decoder
 	hpackCases(c)
+	// table references at the varint boundaries: sequences of blocks on one decoder, and inside HEADERS frames
+	hpackxCases(c)
+	h2IndexFrames(c)
 	// the header block decoder alone
 	seenKv := map[string]bool{}
 	kv := func(b []byte, how string) {
